@@ -1,6 +1,7 @@
 """C15 — information-content weights are conserved, counted once and monotone."""
 from __future__ import annotations
 import ast
+from ..pat import Frag
 from ..src import norm, walk_no_nested, AnalysisError
 from ..loops import classify_while, _dominating_facts, _not_in
 from ..pyutil import parents
@@ -171,7 +172,7 @@ def r4_weight(ctx, res):
                 ok = True
     if not ok:
         res.find(key, f.module.loc(f.node), 'weight is no longer `count / num if distribute_weight else count`')
-    src = norm(f.node)
+    src = Frag(f.node)
     key = 'unknown-words-skipped'
     res.inst(key, f.module.loc(f.node), 'num = len(synsets); if num == 0: continue')
     if 'num = len(synsets)' not in src or not any(isinstance(n, ast.If) and norm(n.test) in ('num == 0', 'not num', 'not synsets')
@@ -185,7 +186,7 @@ def r4_weight(ctx, res):
 
 def r5_initialize(ctx, res):
     f = ctx.repo.func('ic', '_initialize')
-    src = norm(f.node)
+    src = Frag(f.node)
     key = 'initialize'
     res.inst(key, f.module.loc(f.node), 'smoothing per synset, ADJ_SAT folded, totals')
     need = ['synset.id: smoothing for synset in wordnet.synsets(pos=pos)', 'wordnet.synsets(pos=ADJ_SAT)', 'freq[ADJ][synset.id] = smoothing',
